@@ -35,7 +35,7 @@ def pList : Rpc :=
   ⟨"ListFoo".toList, " List.\n".toList, "acme.foo.v1.ListFooRequest".toList, "acme.foo.v1.ListFooResponse".toList, false, false⟩
 def pSvc : Service := ⟨"FooService".toList, " Svc.\n".toList, [pGet, pList]⟩
 def pImp : Import := ⟨"Dep/Bad.proto".toList, false, false, false⟩
-def pOpts : List Str := [[], "example.com/foo/v1;foov1".toList, [], [], [], [], []]
+def pOpts : List (Option Str) := [none, some "example.com/foo/v1;foov1".toList, none, none, none, none, none]
 
 def pA : File :=
   { path := "acme/foo/v1/a.proto".toList, pkg := "acme.foo.v1".toList,
